@@ -185,6 +185,16 @@ fn go_literal_from_primitive(value: &Prim, ty: &tast::Ty) -> goast::Expr {
 
 fn compile_imm(goenv: &GlobalGoEnv, imm: &anf::ImmExpr) -> goast::Expr {
     match imm {
+        // a foreign function used as a value is named the way a call of it names it
+        anf::ImmExpr::ImmVar { name, ty: _ }
+            if let Some(extern_fn) = goenv.genv.value_env.extern_funcs.get(name) =>
+        {
+            let alias = go_package_alias(goenv, &extern_fn.package_path);
+            goast::Expr::Var {
+                name: format!("{}.{}", alias, extern_fn.go_name),
+                ty: tast_ty_to_go_type(&imm_ty(imm)),
+            }
+        }
         anf::ImmExpr::ImmVar { name, ty: _ } => goast::Expr::Var {
             name: go_ident(name),
             ty: tast_ty_to_go_type(&imm_ty(imm)),
